@@ -336,6 +336,7 @@ func c05(p *core.Program, r *core.Report) {
 	}
 	lastElemRule(p, r, "last-elem-guarded", 1, only)
 	chainRule(p, r, "offset-chain", 3, only)
+	lastNonEmptyScanRule(p, r, "last-non-empty-scan", 1, wktRel)
 	strideRule(p, r, "stride-discipline", []strideTarget{{wktRel, "(*Encoder).writeFlatCoords0", "all"}, {wktRel, "(*Encoder).writeFlatCoords1", "all"}, {wktRel, "(*Encoder).writeFlatCoords1Ends", "all"}, {wktRel, "(*Encoder).writeFlatCoords2", "all"}})
 	genSyncRule(p, r, "gensync")
 	r.Assume("strconv.FormatFloat(x,'f',-1,64) followed by ParseFloat(.,64) returns x bit for bit for finite x (stdlib contract); NaN and infinities have no WKT spelling")
